@@ -8,6 +8,7 @@
 // (sequential histories for C20).
 //   worker ops:       C create guard   D destroy guard   E re-read guard epoch   P scheduling point
 //                     I GetThreadID (+ heartbeat-at-reuse check)   H GetHeartBeat (recorded)
+//                     M self move-assignment of the guard   T overwrite the guard by a guard of a second manager   Z drop both
 //                     L GetProtectedEpochs (guard + list)   V verify list unchanged and alive
 //                     Q GetCurrentEpoch   N GetMinEpoch
 //   coordinator ops:  F one ForwardGlobalEpoch (interleaved)   B<n> n forwards as one indivisible
@@ -148,6 +149,7 @@ struct Ghost {
 
 struct World {
   EpochManager *mgr = nullptr;
+  EpochManager *mgr2 = nullptr;  // second manager (guards of different managers moved into each other)
   vshim::Atomic<int> turn{0};
 } *W;
 
@@ -280,6 +282,7 @@ Body(int tid)
 {
   const auto &tp = PROG.th[tid];
   std::optional<EpochGuard> guard;
+  std::optional<EpochGuard> guard2;
   static char labels[kMaxT][32];
   auto &g = GH->g[tid];
   int step = 0;
@@ -387,6 +390,46 @@ Body(int tid)
         vs::NoSchedule ns;
         g.in_destroy = false;
         ++GH->stamp;
+        break;
+      }
+      case 'M': {  // self move-assignment: whatever the guard is afterwards, the protection must end with it
+        if (!guard) break;
+        {
+          vs::NoSchedule ns;
+          g.alive = false;
+          g.in_destroy = true;
+          g.has_list = false;
+          ++GH->stamp;
+        }
+        {
+          auto &ref = *guard;
+          *guard = std::move(ref);
+        }
+        guard.reset();
+        vs::NoSchedule ns;
+        g.in_destroy = false;
+        ++GH->stamp;
+        break;
+      }
+      case 'T': {  // overwrite the live guard by a named guard of a second manager (kept alive in guard2's place)
+        if (!guard || W->mgr2 == nullptr) break;
+        guard2.emplace(W->mgr2->CreateEpochGuard());
+        {
+          vs::NoSchedule ns;
+          g.alive = false;
+          g.in_destroy = true;
+          g.has_list = false;
+          ++GH->stamp;
+        }
+        *guard = std::move(*guard2);  // the protection in the first manager ends here
+        vs::NoSchedule ns;
+        g.in_destroy = false;
+        ++GH->stamp;
+        break;
+      }
+      case 'Z': {  // destroy the moved-from object and the overwritten guard
+        guard2.reset();
+        guard.reset();
         break;
       }
       case 'I': {  // learn the thread ID explicitly (C15: earlier heartbeats of this ID must be expired)
@@ -547,6 +590,13 @@ Setup()
   GH->baseline_blocks = vs::LiveBlocksTotal();
   W->mgr = new EpochManager{};
   for (int i = 0; i < PROG.prefix; ++i) W->mgr->ForwardGlobalEpoch();
+  bool two = false;
+  for (auto &t : PROG.th)
+    for (auto &o : t.ops) two |= (o.mn == 'T');
+  if (two) {
+    W->mgr2 = new EpochManager{};
+    for (int i = 0; i < 300; ++i) W->mgr2->ForwardGlobalEpoch();
+  }
 }
 
 void
@@ -559,6 +609,8 @@ Teardown()
   }
   delete W->mgr;
   W->mgr = nullptr;
+  delete W->mgr2;
+  W->mgr2 = nullptr;
   const size_t nodes = LiveNodes();
   const size_t total = vs::LiveBlocksTotal();
   if (nodes != 0 || total != GH->baseline_blocks) {
@@ -661,6 +713,7 @@ MakeScenario()
   s.digest = Digest;
   s.outcome = Outcome;
   s.uaf_props = UafProps;
+  s.deadlock_props = "C14";  // only GetThreadID can wait in these scenarios
   s.name_of = [](const void *a) -> std::string {
     if (!W || !W->mgr) return "";
     if (a == &W->mgr->global_epoch_) return "global_epoch";
@@ -710,6 +763,14 @@ Family(const std::string &f)
       with_prefixes("W0:C P D | W0:C P E P D | W0:C P E D | K:F F", {0, 255});
       with_prefixes("W0:C D | W0:C D | W0:C P E P D | K:F", {0});
     }
+  } else if (f == "moves") {  // C16: a guard consumed by a move assignment stops pinning
+    out.push_back("k=0;W0:C@0 M@1 | K:F@2 F@3");
+    out.push_back("k=255;W0:C@0 M@1 | K:F@2 F@3 B300@4");
+    out.push_back("k=0;W0:C@0 T@1 Z@4 | K:F@2 F@3");
+    out.push_back("k=255;W0:C@0 T@2 Z@5 | K:F@1 F@3 B300@4");
+    out.push_back("k=0;W0:C M P | K:F F");
+    out.push_back("k=0;W0:C T P Z | K:F F");
+    out.push_back("k=0;W0:L@0 M@1 | K:B600@2 F@3");
   } else if (f == "hb") {  // C15 with the coordinator scanning slots while threads exit and IDs are reused
     if (kCap == 1) {
       with_prefixes("W0:I H C P D | W0:I H C P D | K:F F", {0});
